@@ -1,11 +1,12 @@
 (* C02 — the catalog says exactly what the document says.
    Statements only; proofs in Proofs/C02Proofs.v.  PARTIAL: the round-trip theorem
    build (render (tokens a) l) = expected a of DESIGN.md is not proved; proved are the locality
-   and order lemmas of the catalog model below (with the tag lemmas of Props/C05.v and the
+   and order lemmas of the catalog model below, including - for every directive, catalog state
+   and forest - that interactions are only ever appended, in document order, each id once (with the tag lemmas of Props/C05.v and the
    placement theorem of Props/C11.v).  The round trip itself is checked on every run against an
    expected catalog computed from the abstract model by an independent oracle (lib/expected.py)
    and against the extracted catalog model. *)
-From JS Require Import Base Bytes Scanner Directive Core Expand Catalog C02Proofs.
+From JS Require Import Base Bytes Scanner Directive Core Expand Catalog C02Proofs CatalogOrder.
 From JS Require DirectiveTables.
 
 Theorem C02_updates_are_local :
@@ -33,7 +34,27 @@ Theorem C02_id_of_method_in_url :
     http_id d (u :: rest) = inl (str "http " ++ kind_name (d_kind d) ++ sp ++ 47%N :: p, kind_name (d_kind d), 47%N :: p).
 Proof. exact method_id_from_url. Qed.
 
+(* nothing invented, nothing dropped, document order: whatever the directive, the catalog state and
+   the outcome of the checks, adding it leaves the list of interaction ids as it is or appends
+   exactly one id that was not there ... *)
+Theorem C02_a_directive_appends_at_most_one_new_interaction :
+  forall banned c d anc c', add_directive banned c d anc = COk c' -> step_ok c c'.
+Proof. exact add_directive_step. Qed.
+
+(* ... and so, for every forest, the ids after the interaction pass are the ids before followed
+   by the new ones, in the order their directives are visited, without repetition *)
+Theorem C02_interactions_are_appended_in_document_order :
+  forall read_body banned fuel ds c c', add_all read_body banned fuel c ds = COk c' -> ext c c'.
+Proof. exact add_all_ext. Qed.
+
+Theorem C02_built_catalog_lists_every_interaction_once :
+  forall read_body banned fuel forest c, build_catalog read_body banned fuel forest = COk c -> NoDup (ids c).
+Proof. exact built_catalog_ids_distinct. Qed.
+
 Print Assumptions C02_updates_are_local.
+Print Assumptions C02_a_directive_appends_at_most_one_new_interaction.
+Print Assumptions C02_interactions_are_appended_in_document_order.
+Print Assumptions C02_built_catalog_lists_every_interaction_once.
 Print Assumptions C02_updates_keep_document_order.
 Print Assumptions C02_id_of_method_with_own_path.
 Print Assumptions C02_id_of_method_in_url.
